@@ -188,7 +188,9 @@ def _one_case(args):
                     toks = ln.strip().rstrip(")").split()
                     libs = toks[toks.index("AnaAlgorithmLib") + 1:]
                     break
+        nwarn = sum(1 for w in tr["warnings"] if "assuming that the method" in w)
         rec["translate"] = {"outcome": tr["outcome"], "exc": tr["exc"], "msg": tr["msg"], "treename": tr["treename"], "libs": libs,
+                            "nwarn": nwarn, "checkwarn": bool(case.get("checkwarn", False)),
                             "filename": tr["filename"], "files": files, "residual": residual,
                             "warnings": tr["warnings"]}
         rec["compile"] = {"ok": False, "stage": "", "msg": ""}
@@ -252,7 +254,8 @@ def validate(recs, events, math_file=None, batch=400):
     for r in recs:
         slim.append({k: r[k] for k in ("id", "backend", "q", "support", "compile", "runs")} | {"declv": r.get("declv", "none")} |
                     {"translate": {k: r["translate"][k] for k in ("outcome", "exc", "treename", "filename", "files", "residual")} |
-                                  {"libs": r["translate"].get("libs", [])}})
+                                  {"libs": r["translate"].get("libs", []), "nwarn": r["translate"].get("nwarn", 0),
+                                   "checkwarn": r["translate"].get("checkwarn", False)}})
     for i in range(0, len(slim), batch):
         chunk = slim[i:i + batch]
         tf = os.path.join(work, "trace%d.json" % i)
